@@ -23,6 +23,11 @@ pub fn resolve_align(
         &mut expr::EvalContext::new(),
         &ast_align.expr)?;
 
+    asm::resolver::check_failed_constraint(
+        report,
+        ctx,
+        &value)?;
+
     let value = value.expect_error_or_usize(
         report,
         ast_align.expr.span())?;
